@@ -326,7 +326,7 @@ FAMILIES = [
                 "slow line path end-to-end == grep model with stop-on-nonmatch ON; symbolic hit table, "
                 "A,B in 0..=1, invert, line numbers",
                 SLOW_E2E_FUNCS, timeout=900, rules=searcher_rules(2),
-                quick_shapes=["q_empty", "q_one", "q_one_unterm", "q_blank", "q_two", "q_blank_mid", "q_crlf_mix", "q_nul"]),
+                quick_shapes=["q_empty", "q_one", "q_one_unterm", "q_blank", "q_two", "q_blank_mid", "q_crlf_mix", "q_nul"], shape_filter=lambda sh: sh.nl <= 3),
     ShapeFamily("c03_slice_passthru", ["C03", "C01"], SEARCHER, CORE_MOD, GEN,
                 "slow line path end-to-end == grep model with passthru ON; symbolic hit table, invert, "
                 "line numbers, stop-on-nonmatch",
